@@ -775,7 +775,8 @@ def hook_mcs(I, v, args, kwargs, node):
                         else:
                             ign_default = ("unread", _ast.unparse(dn_))
     dl = bound.get("deadline", Const(None))
-    I.log("mcs", node, cid=cid, wcnf=w, snap=snap, ignore=ign, ignore_view=ignv, deadline=dl, ignore_default=ign_default)
+    one_shot = isinstance(ign, Ref) and isinstance(I.state.heap.get(ign.oid), HList) and bool(getattr(I.state.heap[ign.oid], "one_shot", False))
+    I.log("mcs", node, cid=cid, wcnf=w, snap=snap, ignore=ign, ignore_view=ignv, deadline=dl, ignore_default=ign_default, ignore_one_shot=one_shot)
     if not (isinstance(dl, Const) and dl.value is None):
         if I.ctx.decide(("mcs-timeout", cid)):
             from .absint import RaiseSig
